@@ -1,5 +1,5 @@
 """C13 — numeric literals and conversions preserve the number or fail (claimed clauses R1-R4)."""
-import re
+import json, re
 from . import facts as F
 from .intervals import check_float_to_int_casts
 from .report import Collector, expect_fixture_hits
@@ -19,6 +19,25 @@ def casts(b, kinds):
     for bi, j, s in b.stmts():
         if s['k'] == 'Assign' and s['rv']['k'] == 'Cast' and s['rv']['kind'] in kinds:
             yield bi, s
+
+
+def literal_signs(fx, tok):
+    """'' and/or '-' : the sign spellings the `literal` rule of the parser ATN admits in front of token `tok`"""
+    from .grammar import Grammar
+    g = Grammar(fx, 'parser')
+    out = set()
+    for p in g.paths('literal', limit=1):
+        names = [next(iter(x[1])) if x[0] == 'tok' and len(x[1]) == 1 else None for x in p]
+        if names and names[-1] == tok:
+            if len(names) == 1:
+                out.add('')
+            elif names[:-1] == ['MINUS']:
+                out.add('-')
+            else:
+                raise F.Lost('unexpected literal alternative %s' % (p,))
+    if not out:
+        raise F.Lost('token %s not found in the literal rule' % tok)
+    return out
 
 
 def run(fx, rep):
@@ -60,8 +79,24 @@ def run(fx, rep):
         rep.check(okk, 'R3', '%s/parse::<%s>' % (name, ty), b.loc(), 'decimal text parsed by str::parse::<%s>' % ty, 'literal is not parsed with str::parse::<%s>' % ty)
         if hexok:
             rad = [t for bi, t in b.calls() if F.norm_callee(t) == 'core::num::<impl %s>::from_str_radix' % ty]
-            okk = len(rad) == 1 and F.op_const(rad[0]['args'][1]) == 16
+            okk = len(rad) >= 1 and all(F.op_const(t['args'][1]) == 16 for t in rad)
             rep.check(okk, 'R3', '%s/from_str_radix-16' % name, b.loc(), 'hex text parsed by %s::from_str_radix(_, 16)' % ty, 'hex literal is not parsed by %s::from_str_radix(_, 16)' % ty)
+            # every (sign, radix) shape the grammar admits for this literal must be recognised: a hex test that only
+            # knows the unsigned spelling sends `-0x..` to the decimal parser
+            signs = literal_signs(fx, {'visit_Int': 'NUM_INT', 'visit_Uint': 'NUM_UINT'}[name])
+            prefixes = set()
+            for bi, t in b.calls():
+                if F.norm_callee(t) in ('core::str::<impl str>::strip_prefix', 'core::str::<impl str>::starts_with', 'core::str::<impl str>::trim_start_matches',
+                                        'core::str::<impl str>::replace', 'core::str::<impl str>::replacen', 'core::str::<impl str>::find', 'core::str::<impl str>::contains', 'core::str::<impl str>::split_once'):
+                    for x in pv.of_operand(t['args'][1]):
+                        if x[0] == 'const' and isinstance(x[1], str):
+                            prefixes.add((F.norm_callee(t).rsplit('::', 1)[-1], x[1]))
+            reads_sign = bool(re.search(r'"k": "Field"[^{}]*"name": "sign"|"name": "sign"[^{}]*"k": "Field"', json.dumps(b.raw['blocks'])))
+            for sg in sorted(signs):
+                want = sg + '0x'
+                okk = any(c == want for _, c in prefixes) or (sg and (reads_sign or any(m in ('replace', 'replacen', 'find', 'contains', 'split_once') and c == '0x' for m, c in prefixes)))
+                rep.check(bool(okk), 'R3', '%s/hex-shape/%s' % (name, want), b.loc(), 'the spelling %s.. is recognised as hexadecimal' % want,
+                          '%s tests for the hex prefix with %s only: the grammar also admits `%s..`, which is handed to the decimal parser and rejected (`-0x1`, `-0x8000000000000000` do not compile)' % (name, sorted(c for _, c in prefixes), want))
         nc = [s for _, s in casts(b, ('IntToInt', 'FloatToInt', 'IntToFloat', 'FloatToFloat')) if not (s['rv']['from'] == 'usize' or s['rv']['to'] == 'usize')]
         rep.check(not nc, 'R3', '%s/no-numeric-cast' % name, b.loc(), 'no `as` on the literal value', 'literal value passes through an `as` cast (%s)' % [(s['rv']['from'], s['rv']['to']) for s in nc])
         dflt = [F.norm_callee(t) for bi, t in b.calls() if re.search(r'::(unwrap_or|unwrap_or_default|unwrap_or_else|ok)$', F.norm_callee(t) or '')]
@@ -97,6 +132,14 @@ def run(fx, rep):
         parses = [t for bi, t in b.calls() if F.norm_callee(t) == 'core::str::<impl str>::parse']
         okk = len(parses) == 1 and parses[0]['callee']['args'][-1] == ty
         rep.check(okk, 'R4', '%s/from-string-parse::<%s>' % (fn, ty), b.loc(), 'string -> %s by str::parse::<%s>' % (fn, ty), '%s(string) does not use str::parse::<%s>' % (fn, ty))
+        if fn == 'double' and parses:
+            # str::parse::<f64> saturates: "1e400" -> inf.  The result must be tested for infinity before it becomes a value.
+            dpv = F.Prov(b)
+            pbi = [bi for bi, t in b.calls() if F.norm_callee(t) == 'core::str::<impl str>::parse'][0]
+            tests = [t for bi, t in b.calls() if re.search(r'f64>::(is_infinite|is_finite)$', F.norm_callee(t) or '')
+                     and any(F.term_contains(x, lambda y: y[0] == 'call' and y[3] == pbi) for x in dpv.of_operand(t['args'][0]))]
+            rep.check(len(tests) >= 1, 'R4', 'double/overflowing-text-rejected', b.loc(), 'the parsed double is tested for infinity',
+                      'double(string) returns the result of str::parse::<f64> untested: double(\'1e400\') is +inf, a saturated number, instead of an error')
     sb = fx.body(FUNCS + 'string')
     rep.analysed(sb)
     spv = F.Prov(sb, transparent={k: v for k, v in F.TRANSPARENT.items() if k != 'std::string::ToString::to_string'})
